@@ -1,6 +1,8 @@
 (** C18 — property theorems.  This file contains nothing but statements closed by [exact]. *)
-From Coq Require Import ZArith List Bool.
-From KV Require Import Base.IEEE Base.Outcome C18.Model C18.ProofsWav C18.ProofsSched.
+From Coq Require Import ZArith List Bool Reals.
+From Flocq Require Import Core IEEE754.BinarySingleNaN.
+From KV Require Import Base.IEEE Base.Outcome C18.Model C18.ProofsWav C18.ProofsSched C18.ProofsConv.
+From KV Require C18.ProofsExamples.
 Import ListNotations.
 Local Open Scope Z_scope.
 
@@ -81,3 +83,29 @@ Theorem streaming_equals_static :
     run_stream zero audio psize land fuel (length audio) (sched_new land start) start ops =
     Ok (map (fun p => (Some (nth p audio zero), p)) (positions (length audio) start ops)).
 Proof. exact run_stream_from_start. Qed.
+
+(** The conversions symphonia applies to 8/16/24-bit samples are EXACT in binary32: the float
+    is finite and its value is the rational number the sample denotes ((x-128)/128, x/2^15,
+    x/2^23) -- nothing is invented or lost by rounding. *)
+Theorem conv_exact :
+  forall (f : sfmt) (x : Z), exact_fmt f -> sample_ok f x ->
+    is_finite (conv f x) = true /\ B2R (conv f x) = value_of f x.
+Proof. exact conv_exact_lemma. Qed.
+
+(** ... hence every such sample lies in [-1, 1) ... *)
+Theorem conv_in_unit_interval :
+  forall (f : sfmt) (x : Z), exact_fmt f -> sample_ok f x ->
+    le32 (Z32 (-1)) (conv f x) = true /\ lt32 (conv f x) (Z32 1) = true.
+Proof. exact conv_in_unit_lemma. Qed.
+
+(** ... the conversion is strictly monotone ... *)
+Theorem conv_monotone :
+  forall (f : sfmt) (x y : Z), exact_fmt f -> sample_ok f x -> sample_ok f y ->
+    (x < y)%Z -> lt32 (conv f x) (conv f y) = true.
+Proof. exact conv_monotone_lemma. Qed.
+
+(** ... and injective: distinct samples stay distinct. *)
+Theorem conv_injective :
+  forall (f : sfmt) (x y : Z), exact_fmt f -> sample_ok f x -> sample_ok f y ->
+    conv f x = conv f y -> x = y.
+Proof. exact conv_injective_lemma. Qed.
